@@ -76,7 +76,7 @@ PROPS = {
                 slices=[S("par", 14, 160, ["corr", "loginv", "sconverge", "refused_noop", "lock_excludes", "no_panic"])],
                 race=dict(profile="par", cases=6), assumptions=SERVICE_ASSUMPTIONS[:1] + ["the serial order is derived from the responses (per key by committed end of log; pullers after the pusher that produced their end)", "data races / runtime deadlocks are looked for (race detector, deadline) but not excluded by proof"]),
     "C13": dict(lean=["Orda.Props.C13"], rule="non-trivial: a case exercises ≥2 entry modes on one key, or a refusal (create on existing / subscribe to missing / other type); distinct command sequences",
-                slices=[S("svc", 70, 1000, ["corr", "contract", "sconverge", "loginv"]), S("mut", 40, 600, ["corr", "contract", "refused_noop"]), S("par", 8, 100, ["corr", "contract", "loginv", "lock_excludes"])], assumptions=SERVICE_ASSUMPTIONS),
+                slices=[S("svc", 70, 1000, ["corr", "contract", "sconverge", "loginv"]), S("mut", 40, 600, ["corr", "contract", "refused_noop"]), S("par", 8, 100, ["corr", "contract", "loginv", "lock_excludes"]), S("rtentry", 24, 240, ["entry_contract_client"])], assumptions=SERVICE_ASSUMPTIONS),
     "C16": dict(lean=["Orda.Props.C16"], rule="non-trivial: the case contains ≥1 mutated request that was refused and ≥1 later accepted request of the same client; distinct command sequences",
                 slices=[S("mut", 90, 1500, ["corr", "refused_noop", "usable_after_refusal", "loginv", "no_panic"]), S("par", 6, 60, ["corr", "refused_noop", "no_panic"]), S("rtrefuse", 8, 80, ["usable_after_rpc_refusal"])], assumptions=SERVICE_ASSUMPTIONS),
     "C17": dict(lean=["Orda.Props.C17"], rule="non-trivial: ≥2 collections hold datatypes under the same key and a request named a foreign collection or carried a foreign datatype id; distinct command sequences",
